@@ -18,7 +18,7 @@ def call_stmt(info, p, ev, target):
     t = info.types
     itf = p['itf']['fqn']
     _rt, kind, _c, _lo = t.reply(itf, ev)
-    decl = ' '.join(f'{t.formal_type(itf, f).rstrip("&")} a{i}; a{i}.v = {i};'
+    decl = ' '.join(f'{t.local_type(itf, f)} a{i}; a{i}.v = {i};'
                     for i, f in enumerate(ev['formals']))
     args = ', '.join(f'a{i}' for i in range(len(ev['formals'])))
     if kind == 'void':
@@ -135,7 +135,7 @@ def generate(info):
     w('        a_point(aid);')
     if facts.outs:
         ev = facts.outs[0]
-        decl = ' '.join(f'{t.formal_type(p["itf"]["fqn"], f).rstrip("&")} a{i}; a{i}.v = {i};'
+        decl = ' '.join(f'{t.local_type(p["itf"]["fqn"], f)} a{i}; a{i}.v = {i};'
                         for i, f in enumerate(ev['formals']))
         args = ', '.join(f'a{i}' for i in range(len(ev['formals'])))
         w(f'        (*pu)([] {{ T("raise-begin", "env", vf::S().arb_held ? 1 : 0); {decl} '
